@@ -20,7 +20,10 @@ partial def pNode (j : Json) : R Node := do
     let s ← field j "sub"
     let body ← listF (asList pNode) s "body"
     let repIds ← (match optF s "rep_ids" with | some r => do pure (some (← asList asStr r)) | none => pure none : R (Option (List String)))
-    return .sub (.mk body (← intF s "reps") (← pPairs asNat (← field s "qmap")) (← pPairs asStr (← field s "kmap")) repIds (← listF asStr s "parent_path"))
+    let sconds ← (match optF s "conds" with
+      | some cs => asList (fun c => do return (← pKey (← field c "key"), ← intF c "index")) cs
+      | none => pure [] : R (List (Key × Int)))
+    return .sub (.mk body (← intF s "reps") (← pPairs asNat (← field s "qmap")) (← pPairs asStr (← field s "kmap")) repIds (← listF asStr s "parent_path")) sconds
 
 def jFlat (o : FlatOp) : Json := Json.mkObj [
   ("id", jNat o.id), ("q", jList jNat o.qubits),
@@ -36,7 +39,7 @@ def handle (op : String) (j : Json) : R Json := do
   | "mkeys" =>
     let n ← pNode (← field j "node")
     match n with
-    | .sub c => return jList jKey (coMkeys 8 c)
+    | .sub c _ => return jList jKey (coMkeys 8 c)
     | _ => return jList jKey []
   | _ => throw s!"unknown op {op}"
 
